@@ -21,7 +21,7 @@ EXPLANATION = (
     'channel responder is subscribed before its first frame is dispatched; (d) stop_all_streams iterates a snapshot '
     'of the table and removes each entry in the iteration that failed it. Not decided: the behaviour over all peer '
     'histories and schedules beyond what these typestates imply.')
-EXPLANATION_ADDED = ("(e) resolved at least once: every exit of the client's reconnect listener fails the streams still registered and close() cancels that task; nothing unprotected precedes stop_all_streams() in the close sequence; the library's own sent-futures obey the same done() guard; resolve sites include set_result/set_exception taken as a value and called through a helper. Every exit of the receiver (EOF, transport error, cancellation) reaches the close sequence that fails the pending requests (shared C11.a).")
+EXPLANATION_ADDED = ("(e) resolved at least once: every exit of the client's reconnect listener fails the streams still registered and close() cancels that task; nothing unprotected precedes stop_all_streams() in the close sequence; the library's own sent-futures obey the same done() guard; resolve sites include set_result/set_exception taken as a value and called through a helper. Every exit of the receiver (EOF, transport error, cancellation) reaches the close sequence that fails the pending requests (shared C11.a). The awaitable collector releases its waiter on the completing element, on_complete and on_error, and run() raises the kept error or returns the collection (shared C01.h).")
 EXPLANATION = EXPLANATION.replace(' Not decided', ' ' + EXPLANATION_ADDED + ' Not decided', 1) \
     if ' Not decided' in EXPLANATION else EXPLANATION + ' ' + EXPLANATION_ADDED
 ASSUMPTIONS = COMMON_ASSUMPTIONS + [
@@ -361,7 +361,10 @@ def rule_e(ctx):
     # every way the receiver can end (EOF, transport error, cancellation) reaches the close sequence that fails the
     # pending requests (shared C11.a): "resolved exactly once" includes "at least once" when the link breaks
     c11a(ctx)
+    # the awaitable adapter resolves its caller once: with the collected elements or with the stream's error
+    from .awaitable import rule_collector
+    rule_collector(ctx, 'C01.h')
     check_guarded_resolve(ctx, 'C09.e', only_module={'rsocket.rsocket_base'})
 
 
-RULES = [('C07.a', rule_a), ('C07.b', rule_b), ('C07.c', rule_c), ('C07.d', rule_d), ('C11.h+C11.b+C09.e+C11.a', rule_e)]
+RULES = [('C07.a', rule_a), ('C07.b', rule_b), ('C07.c', rule_c), ('C07.d', rule_d), ('C11.h+C11.b+C09.e+C11.a+C01.h', rule_e)]
